@@ -1819,6 +1819,8 @@ func (n *node) unregisterProcess(p *process, reason error) {
 
 	lib.VerifPoint("unreg.drain", p)
 	n.RouteTerminatePID(p.pid, reason)
+	// the links and monitors this process had requested go with it
+	n.targetManager.CleanupConsumer(p.pid)
 
 	if p.application != system.Name {
 		// do not count system app processes
